@@ -1104,9 +1104,8 @@ impl FromStr for Tag {
             }
             8 => {
                 // ggggeeee
-                let (g, e) = s.split_at(4);
-                let (num_g, _) = parse_tag_part(g)?;
-                let (num_e, _) = parse_tag_part(e)?;
+                let (num_g, rest) = parse_tag_part(s)?;
+                let (num_e, _) = parse_tag_part(rest)?;
 
                 Ok(Tag(num_g, num_e))
             }
